@@ -1,1 +1,8 @@
 import RaftLogModel.Props.C06
+open RaftLog
+#print axioms c06_rejected_record_noop
+#print axioms c06_err_is_noop
+#print axioms c06_rejected_call_noop
+#print axioms c06_batch_rejected_entry_noop
+#print axioms c06_spec_rejects_vote
+#print axioms c06_spec_rejects_commit
